@@ -27,7 +27,7 @@ CLAIMED['C09'] = dict(
          'representation (bare, in lists/vectors of length <= 2, nested one level) key equality is exactly mathematical equality (NaN = NaN) and equal keys write identical '
          'hash traces; check_if_valid_key accepts exactly the hashable kinds.',
     note='Trusted: SipHash / std HashMap (equal write traces => same bucket, Eq decides within it); num crates implement Z/Q; abstract doubles. '
-         'Outside: dict-valued keys, string/bytes keys, the dictionary builtins beyond their use of ObjKey Eq/Hash.',
+         'Outside: dict-valued keys, string/bytes keys, the dictionary builtins beyond their use of ObjKey Eq/Hash. Added (props/equiv.py family C09): the dict operators && || -- ||+ |. -. and assignment through equal keys == loops over keys, with symbolic keys (every equality pattern is a path); count_distinct on lists / vectors with NaN and float elements == the number of keys of a dict built from the elements.',
     design='§7 C09', technique='symbolic execution of rustc MIR + SMT (z3); hasher as trace recorder')
 CLAIMED['C07'] = dict(
     text='Bounded symbolic model checking of the real MIR of the NNum operators (+ - * % in all four owned/borrowed impls, /, div_floor, mod_floor), the rounding family, '
@@ -43,7 +43,7 @@ CLAIMED['C10'] = dict(
          'safe_index for lists, vectors, bytes and ASCII strings of length 0..3 (quick) / 0..5 (thorough) with the index/bounds arbitrary values of every kind '
          '(all integers in both representations, rationals, floats, null, omitted).',
     note='Trusted: Kani\'s model of the dev profile with std::fmt::format stubbed (error text only); num-bigint to_isize/to_usize contract; std slice indexing. '
-         'Outside: streams (C11), non-ASCII strings, the take/drop/first/last/... one-line builtins, dict indexing (C09).',
+         'Outside: streams (C11), non-ASCII strings, the take/drop/first/last/... one-line builtins, dict indexing (C09). Added (props/equiv.py family C10): take / drop by a symbolic count, first / last / second / third, !! and !?, tail / butlast / uncons / unsnoc / only == the corresponding index or slice expression, on lists and on stream(seq), lengths 0, 1, 3.',
     design='§7 C10', technique='Kani/CBMC bounded model checking + symbolic execution of rustc MIR with z3', engine='kani+mirsym')
 CLAIMED['C01'] = dict(
     text='Bounded symbolic model checking of ONE mutation step from an arbitrary aliased pre-state (inductive step over histories): the real MIR of set_index (list, nested list, '
@@ -51,7 +51,7 @@ CLAIMED['C01'] = dict(
          'of the outer and/or inner allocation and an index path symbolic over all integers in both representations. On success the target equals the functional update at the '
          'Python-normalised path, on failure it is unchanged, and every alias is unchanged in all cases.',
     note='Kernel level. Trusted: the Rc model (clone/drop/make_mut/get_mut/try_unwrap per std contract). Bound: list of 3, nested 2x2, vector/bytes of 3, depth <= 2. '
-         'Outside: statement-level evaluator paths (closures sharing Env cells, for-loop binding, swap, consume), dict/struct/string arms, builtins that rebuild collections.',
+         'Outside: statement-level evaluator paths (closures sharing Env cells, for-loop binding, swap, consume), dict/struct/string arms, builtins that rebuild collections. Statement level (added): 19 mutation statements run by the real evaluator on real parse trees (swap of slots / variables incl. the same slot, function argument / container element / closure result copies, consume, pop, remove and index assignment at a symbolic index, every-slice forms, dict values, defaulted dicts) == the explicit functional update with every copy untouched (props/equiv.py family C01).',
     design='§7 C01', technique='symbolic execution of rustc MIR with an explicit Rc/strong-count heap model + SMT (z3)')
 CLAIMED['C02'] = dict(
     text='Same symbolic runs as C01 with the Rc model\'s clone log as the observable: at strong count 1 no Rc::make_mut clone / Vec clone happens and the allocation is kept; '
@@ -73,14 +73,14 @@ CLAIMED['C11'] = dict(
          'Subsequences / CartesianPower over base lists of length 0..3 (quick) / 0..4 (yielded selection, successor in the documented order, closed-form len drops by one), Cycle; '
          'and the trait default methods Stream::{len, force, pythonic_index_isize, pythonic_slice, reversed} plus WrappedVec against the list of remaining elements with the '
          'index and both slice bounds over all of isize; the cycle constructor rejects an empty base.',
-    note='Trusted: num-bigint contract, eager in-order evaluation of the iterator adaptors inside the kernels. Outside: lazy map/filter/zip/iterate adaptors (call the evaluator), counts beyond usize, Repeat, constructor builtins other than cycle.',
+    note='Trusted: num-bigint contract, eager in-order evaluation of the iterator adaptors inside the kernels. Outside: lazy map/filter/zip/iterate adaptors (call the evaluator), counts beyond usize, Repeat, constructor builtins other than cycle. Added (props/equiv.py family C11): lazy_map / lazy_filter / lazy_zip (also with an infinite operand) of stream(seq) through the real evaluator: len == number of elements iterated, elements, indexing, iterating twice and first / last leave the variable unadvanced.',
     design='§7 C11', technique='symbolic execution of rustc MIR + SMT (z3); one-step induction over stream states')
 CLAIMED['C16'] = dict(
     text='Bounded symbolic model checking of the real MIR of decimal::parse_decimal_exactly / parse_rational_exactly / apply_exp10 on texts `[sign] digits [. digits] [e [sign] digits]` and `p/q` '
          'with symbolic digits (value == the exact rational the text spells; rejection only for texts that spell no number or exceed the documented exponent cap; no panic for 10-digit exponents), '
          'of the str_radix / int_radix closures (positional notation for every n < base^3 in both representations and signs, digit-string decoding, round trip) and of the NInt formatting impls '
          '(same formatter and value for Small(n) and Big(n)), and of the integer arm of json_encode (an integer JSON number with exactly that value iff it fits 64 bits, for either representation).',
-    note='Partial: covers noulith\'s own codec code. Trusted/outside: base64, gzip, serde_json (its Value constructors are recorders), UTF-8, std float parsing/printing, digit generation of the std/num formatters, longer digit strings, non-ASCII text.',
+    note='Partial: covers noulith\'s own codec code. Trusted/outside: base64, gzip, serde_json (its Value constructors are recorders), UTF-8, std float parsing/printing, digit generation of the std/num formatters, longer digit strings, non-ASCII text. Added: the float arm of json_encode (the JSON number is value-equal to the float, so json_decode(json_encode(f)) == f for finite f).',
     design='§7 C15/C16', technique='symbolic execution of rustc MIR + SMT (z3) over symbolic digit strings')
 CLAIMED['C15'] = dict(
     text='Bounded symbolic model checking of the lexer units Lexer::{next, peek, emit, lex_simple_string_after_start, lex_base_and_emit, lex_base_64_and_emit} driven directly on a cursor over '
@@ -96,7 +96,7 @@ CLAIMED['C14'] = dict(
          'ending in panic!/unwrap/expect/todo!/overflow/index-out-of-bounds/division-by-zero is replayed natively and reported when the interpreter really panics; plus the slice-assignment site. '
          'The evidence lists which builtins were encoded (measured ratio) and why the others were not.',
     note='Partial: builtins needing the environment / I/O / clock / randomness, struct-implemented builtins (impl Builtin) and everything listed as not encoded are outside; hangs are only seen as fuel exhaustion. '
-         'The panic obligations of the kernels of C01-C12, C15, C16 are discharged in those checks (index arithmetic, % by zero, 0^-n, permutations/cycle on empty input, \\\\u overflow, decimal exponents were found there).',
+         'The panic obligations of the kernels of C01-C12, C15, C16 are discharged in those checks (index arithmetic, % by zero, 0^-n, permutations/cycle on empty input, \\\\u overflow, decimal exponents were found there). Codec crates are environment stubs (flate2 decoding and base64 decoding return Ok or Err by contract, encoders over in-memory data cannot fail), so the expect / unwrap sites behind them are reachable obligations.',
     design='§7 C14', technique='symbolic execution of rustc MIR + SMT (z3): panic-path feasibility')
 CLAIMED['C04'] = dict(
     text='Bounded symbolic model checking of the dispatch layer that makes every application form reach the same implementation: the real MIR of Func::{run, run1, run2} on the wrapper variants '
@@ -116,7 +116,7 @@ CLAIMED['C12'] = dict(
          '(sequence patterns of 1-3 names with the splat in every position against lists of length 0-4, two splats, literals, or / and, n + k, -x, nested sequences, annotations, trailing defaults) with Env::insert and '
          'default-expression evaluation as recorders: every implementation path agrees with a reference matcher written from the documented rules on match / no match and on the value bound to every name, and never panics.',
     note='Partial: declaration form only (rt = Some). Outside: assignment to existing variables and the later-assignment type checks (assign_respecting_type, every-assignment, swap need the environment), struct and '
-         'comparison-operator patterns, satisfying types, switch arm selection and catch (they call assign), conversion functions on strings and containers. Stubs: try_borrow(_mut)_nres, Env::insert, evaluate (defaults).',
+         'comparison-operator patterns, satisfying types, switch arm selection and catch (they call assign), conversion functions on strings and containers. Stubs: try_borrow(_mut)_nres, Env::insert, evaluate (defaults). Added (props/equiv.py family C12): comparison-chain patterns (a < b, 0 < a < b, 1 < v < 9, _ < 3) with the real ComparisonOperator in switch arms == the explicit test, on sequences of 0-3 symbolic integers.',
     design='§7 C12', technique='symbolic execution of rustc MIR + SMT (z3); reference matcher evaluated symbolically; recorder stubs for the environment')
 CLAIMED['C05'] = dict(
     text='Bounded symbolic model checking at statement level: the real `evaluate` (Sequence, If, While, For and evaluate_for, Try, Throw, Lambda, Call, Break / Continue / Return, And / Or / Coalesce, Assign, OpAssign, Chain, '
@@ -125,7 +125,7 @@ CLAIMED['C05'] = dict(
          'integers. Oracle: a reference interpreter of the documented rules (lexical scoping, fresh scope per call / iteration / catch clause, := refuses redeclaration, = refuses undeclared names, closures capture variables, '
          'break / continue with counts and values, return, try / catch / throw, short-circuit operators, lambda defaults, for-yield) evaluated symbolically: every implementation path agrees with it on value, raised-or-not and printed output for all x, y.',
     note='Partial: a fixed family of programs (their inputs are symbolic, their shape is not). Outside: switch, multi-clause for, <<-, into, eval, splat parameters, structs, the parser itself. Stubs: comparison operators (integer comparison '
-         'yielding 1/0) and print (recorder); error messages opaque; RefCell borrow flags not modelled.',
+         'yielding 1/0) and print (recorder); error messages opaque; RefCell borrow flags not modelled. Added as equivalences (props/equiv.py family C05, the construct == its expansion into constructs the reference interpreter decides): for-declaration clauses (scope, shadowing, no leak), two iteration clauses, guards, index iteration, switch arm selection / scope / no-match, lambdas with splat + defaults.',
     design='§7 C05', technique='symbolic execution of rustc MIR of the evaluator on real parse trees + SMT (z3); reference interpreter evaluated symbolically')
 CLAIMED['C17'] = dict(
     text='Bounded symbolic model checking at statement level: the real `evaluate` with Expr::Freeze -> core::freeze / freeze_lvalue / FreezeEnv (the tree rewrite that resolves free identifiers to Frozen(value) and tracks bound names) '
@@ -146,7 +146,7 @@ CLAIMED['C13'] = dict(
          '(real registrations in a real Env) and compared, for all inputs, with their executable specification written in noulith itself (loops and lists).',
     note='Partial: 42 of the ~60 functions the property lists. Outside: sort, zip, ziplongest, partition, locate, drop while, sum / product / any / all, ++ and friends, transpose / join / split / words / lines, '
          'inputs other than lists of integers, longer lists. '
-         'The index, ordering, key and stream parts of the property\'s mechanism list are decided under C10, C08, C09, C11; panic-freedom of the rest of the closure-registered builtins under C14.',
+         'The index, ordering, key and stream parts of the property\'s mechanism list are decided under C10, C08, C09, C11; panic-freedom of the rest of the closure-registered builtins under C14. Added: drop while / take while on lists and streams (a non-terminating path is replayed natively as a hang), any / all / reject / partition, filter / reject over the keys of a set, sum / product over mixed int / float / NaN elements with the result kind observed, count_distinct with NaNs on lists and vectors.',
     design='§7 C13', technique='symbolic execution of rustc MIR of the builtin closures + SMT (z3); definitions as formulas over the symbolic elements')
 NOT_APPLICABLE = {
  'C13': 'sequence library vs executable specification: the deciding content is std collections glued by one-line closures over whole sequences; not encodable as a bounded solver query over noulith code (DESIGN §9); parts decided under C08/C09/C10/C11/C14',
